@@ -4,11 +4,19 @@ Structured fuzzing of every message a client or server parses. A *case* is one s
   family "pre"   : the harness plays the peer with raw bytes on the link before NEWKEYS
                    (banner lines, KEXINIT, method-specific kex messages for every kex engine);
   family "post"  : an authenticated session with an open channel; a recording puppet peer
-                   sends grammar-built, then mutated, connection/transport messages; on the client
-                   side an application call may be kept waiting meanwhile: open_session, or
-                   exec_command / invoke_shell / invoke_subsystem / get_pty / request_x11 on the
-                   open channel ("postc": only messages for that channel, mutations that prefer
-                   its text fields);
+                   sends grammar-built, then mutated, connection/transport messages (1-4); on the tested
+                   side - either role - 0-3 application calls are kept waiting ON THE ONE TRANSPORT meanwhile:
+                   open_session / open_channel, global_request, exec_command / invoke_shell / invoke_subsystem /
+                   get_pty / request_x11 (the first on the open channel, each further one on a channel of its
+                   own) and renegotiate_keys - the re-key stage: the puppet then HOLDS the exchange (leaves the
+                   KEXINIT unanswered), so the tested side stays inside it while the script's messages, the kex
+                   messages of the grammar among them, arrive ("postc": 1-5 messages for the open channel only,
+                   mutations that prefer its text fields / the text ARGUMENTS of its requests);
+  "bye"          : a script of pre / post / postc / authc may end with the peer's SSH_MSG_DISCONNECT - the one message
+                   every stage accepts - built from its grammar (code, description, language tag), mutated like every
+                   other message (text-preferring) and placed after 0..n of the script's messages: while start_client /
+                   start_server (both forms), renegotiate_keys and the other waiting calls, or an auth_* call waits;
+                   authk's final "disconnect" comes from the same grammar;
   family "reply" : answer-centred, either role: 1-3 rounds on one authenticated session; per round an application call
                    that waits for the peer's ANSWER is started on the tested side - a channel open of every kind
                    (open_session, open_channel direct-tcpip, open_x11_channel, open_forwarded_tcpip_channel,
@@ -34,8 +42,11 @@ get_exception() returns - afterwards to the harness, or meanwhile to paramiko's 
 blocked channel call re-raises and clears it, so the method is wrapped on the tested instance and
 every value it hands out is judged - is an SSHException, EOFError or OSError - or nothing failed.
 The same holds for what an application call that was waiting for the peer (open_session / open_channel, channel
-request, global request: families post, postc, reply) raises itself, in the caller's thread (clause pending-call-raises:
-"a resulting failure is reported through the documented API as an SSHException ... internal errors never escape").
+request, global request, renegotiate_keys: families post, postc, reply) raises itself, in the caller's thread (clause
+pending-call-raises: "a resulting failure is reported through the documented API as an SSHException ... internal errors
+never escape") - for EVERY one of the calls that were waiting when the session ended, not only the first to wake up.
+Every pre script goes through both forms of start_client / start_server (blocking: raises; event: stores).
+Every family has a fixed share of the cases (run in 3 interleaved rounds with seed streams of their own).
 Bucket = exception class + innermost paramiko frame.  Hangs are "inconclusive", never violations.
 """
 import os
@@ -53,9 +64,15 @@ RULE = (
     "session scripts (family pre/post/postc/reply/authc/authk/auths/wire x role x stage) with messages built from a per-type field grammar "
     "and 0-3 mutations (field value replaced by boundary/random/invalid-UTF-8/huge-length values, a string field - chosen among the "
     "string fields only - made undecodable by replacing it or splicing one invalid byte into it, field dropped/duplicated/"
-    "retyped, message truncated, trailing garbage, wrong stage/role); post: optionally an application call (open_session, exec_command, "
-    "invoke_shell, invoke_subsystem, get_pty, request_x11) is blocked on the client while the messages arrive, and every value "
-    "get_exception() hands out - also to that call - is judged; postc: messages for the open channel only, text-preferring mutations; "
+    "retyped, message truncated, trailing garbage, wrong stage/role); post: 0-3 application calls of the tested side (either role; open_session, "
+    "open_channel, global_request, exec_command, invoke_shell, invoke_subsystem, get_pty, request_x11 - one channel per channel request - and "
+    "renegotiate_keys, for which the puppet holds the key exchange open: re-key stage) wait on the ONE transport while the 1-4 messages arrive; "
+    "every value get_exception() hands out - also to those calls - and what EVERY waiter raises is judged (classes waiters:N...); postc: 1-5 "
+    "messages for the open channel only, mutations preferring text fields / the text arguments after the request name; bye: pre / post / postc / "
+    "authc scripts may end with the peer's DISCONNECT from its grammar (6 templates x 0-2 text-preferring mutations of code / description / "
+    "language tag) after 0..n of the script's messages, i.e. while start_client / start_server / renegotiate_keys / the other waiters / an "
+    "auth_* call waits (classes bye:<stage>..., bye:description:<decodable|undecodable|empty|malformed>); every pre script runs through both "
+    "the blocking and the event form of start_client / start_server; fixed case share per family (authk: per entry API); "
     "reply: 1-3 rounds per session x role; per round one of 15 application calls that wait for the peer's answer (5 kinds of channel open, "
     "6 channel requests, 4 global requests) is pending and the answer to exactly that call (OPEN_CONFIRMATION/FAILURE, CHANNEL_SUCCESS/FAILURE, "
     "REQUEST_SUCCESS/FAILURE with the ids in use) is sent with 1-2 mutations that prefer the integer fields (ids, reason codes, sizes, ports), "
@@ -164,8 +181,12 @@ def mutate(tbyte, fields, muts):
                 j = nidx[idx % len(nidx)]
                 k = fields[j][0]
                 fields[j][1] = (iv & 0xFF) if k in ("b", "B") else (iv if iv <= COUNT_CAP else iv & COUNT_CAP) if k == "c" else iv
-        elif op == "badtext":
+        elif op in ("badtext", "badarg"):
             sidx = [j for j, f in enumerate(fields) if f[0] == "s"]
+            if op == "badarg" and len(sidx) > 1:
+                # requests (GLOBAL_REQUEST, CHANNEL_OPEN, CHANNEL_REQUEST ...) start with the string that NAMES them: an undecodable
+                # ARGUMENT - any string field but the first - keeps the message on the path of the handler it was built for
+                sidx = sidx[1:]
             if sidx:
                 j = sidx[idx % len(sidx)]
                 v = bytes(fields[j][1])
@@ -179,6 +200,27 @@ def mutate(tbyte, fields, muts):
     if trunc is not None and body:
         body = body[: trunc % (len(body) + 1)]
     return bytes([tbyte]) + body
+
+
+def text_field_sweep(templates, seed=0):
+    """Enumerated finite sub-domain: every string field of every template of a table, ONE at a time, made undecodable (alternately
+    replaced by a value of NONUTF8 / the original value with one invalid byte spliced in; which value and where rotates with the seed).
+    -> [(template index, field index, payload)]"""
+    out = []
+    n = seed
+    for ti, (t, f) in enumerate(templates):
+        for fi, (k, v) in enumerate(f):
+            if k != "s":
+                continue
+            g = list(f)
+            if n % 2 and v:
+                cut = n % (len(v) + 1)
+                g[fi] = ("s", bytes(v[:cut]) + [b"\xff", b"\x80", b"\xc0", b"\xfe"][(n // 2) % 4] + bytes(v[cut:]))
+            else:
+                g[fi] = ("s", NONUTF8[n % len(NONUTF8)])
+            out.append((ti, fi, bytes([t]) + enc(g)))
+            n += 1
+    return out
 
 
 # ----------------------------------------------------------------------------- templates
@@ -361,10 +403,25 @@ BYE_TEMPLATES = [
 
 
 def build_bye(ti, m):
-    """-> (payload, mutated?)"""
+    """-> (payload, evidence classes: mutated?, what the description field looks like to a receiver)"""
     t, f = BYE_TEMPLATES[ti % len(BYE_TEMPLATES)]
     p = mutate(t, f, m)
-    return p, p != bytes([t]) + enc(f)
+    return p, ["bye:mutated"] * (p != bytes([t]) + enc(f)) + [bye_description_class(p)]
+
+
+def bye_description_class(p):
+    try:
+        rd = R.Reader(p[1:])
+        rd.u32()
+        d = rd.string()
+        try:
+            d.decode("utf-8")
+            desc = "decodable" if d else "empty"
+        except UnicodeDecodeError:
+            desc = "undecodable"
+    except Exception:
+        desc = "malformed"
+    return "bye:description:" + desc
 
 
 def build_kbd_script(method, rounds, final, flist, service_transport=False, bye=None):
@@ -572,7 +629,7 @@ ANSWER_CATEGORIES = {c: sorted(n for n, v in ANSWERED_CALLS.items() if v[2] == c
 REKEY = "renegotiate_keys"
 ANSWERED_CALLS[REKEY] = (lambda t, ch: t.renegotiate_keys(), 20, "kex")
 # what may be kept waiting - SEVERAL at a time, on one transport - while the peer's messages arrive (families post / postc, either role)
-WAITERS = ["open_session", "open_session", "open_channel:direct-tcpip", "global_request", REKEY, REKEY] + sorted(PENDING_CALLS)
+WAITERS = ["open_session", "open_session", "open_channel:direct-tcpip", "global_request", REKEY] + sorted(PENDING_CALLS)
 
 
 class HoldPacketizer(peers.RecPacketizer):
@@ -728,7 +785,7 @@ def run_post(ctx, role, msgs, pending_open, record=True, pending=None, pendings=
         if ended_by_peer:
             classes.append("waiters:%d:session-ended-by-the-peer's-messages" % len(calls))
             if last is not None and last[:1] == b"\x01":
-                classes += ["bye:while-waiting:" + c[0] for c in calls]
+                classes += ["bye:while-waiting:" + c[0] for c in calls] + [bye_description_class(last)]
     if record:
         ctx.case(case, consumed > 0, classes + ["type:%d" % p[0] for p in msgs[: max(consumed, 1)] if p])
     for e in list(seen_exc):
@@ -1159,6 +1216,9 @@ muts = st.lists(mutation, min_size=0, max_size=3)
 # or the original value with one invalid byte spliced in, so that the rest of the message keeps its meaning
 text_mutation = st.tuples(st.just("badtext"), st.integers(0, 40), st.integers(0, 0xFFFF), st.binary(max_size=4), st.just(0))
 text_muts = st.lists(st.one_of(text_mutation, text_mutation.map(lambda m: m), mutation), min_size=0, max_size=2)
+# "badarg": the same among the string fields after the first one (the arguments of a named request)
+arg_mutation = st.tuples(st.just("badarg"), st.integers(0, 40), st.integers(0, 0xFFFF), st.binary(max_size=4), st.just(0))
+chan_muts = st.lists(st.one_of(text_mutation.map(lambda m: m), arg_mutation, mutation.map(lambda m: m)), min_size=0, max_size=2)
 # "badint": one INTEGER field (chosen among the integer fields only) gets a boundary / random value
 int_mutation = st.tuples(st.just("badint"), st.integers(0, 40), st.one_of(st.sampled_from(INTS), st.integers(0, 0xFFFFFFFF)), st.just(b""), st.just(0))
 int_muts = st.lists(st.one_of(int_mutation, int_mutation.map(lambda m: m), mutation), min_size=1, max_size=2)
@@ -1229,9 +1289,9 @@ def build_pre(c):
     if leave is not None:
         pos, ti, bm = leave
         k = pos % len(script)  # number of packets that precede it
-        p, mutated = build_bye(ti, bm)
+        p, bcls = build_bye(ti, bm)
         script.insert(1 + k, frame(p))
-        classes = ["bye:kex:%s:after-%d-packets" % ("start_client" if role == "client" else "start_server", k)] + ["bye:mutated"] * mutated
+        classes = ["bye:kex:%s:after-%d-packets" % ("start_client" if role == "client" else "start_server", k)] + bcls
     if tail == "newkeys":
         script.append(frame(bytes([21])))
         script.append(b"\x00\x00\x00\x1c" + b"\x55" * 64)
@@ -1260,7 +1320,9 @@ def run(ctx):
 
     def body_pre(c):
         role, script, blocking, gex, classes = build_pre(c)
+        # every script goes through BOTH APIs (the blocking call, which raises, and the event form, which only stores): the drawn one first
         run_pre(ctx, role, script, blocking, gex_pack=gex, classes=classes)
+        run_pre(ctx, role, script, not blocking, gex_pack=gex, classes=classes)
 
     def body_post(c):
         role, ms, pend, leave = c
@@ -1294,9 +1356,9 @@ def run(ctx):
         if leave is not None:
             # the server takes leave while the auth call waits: after k of the script's messages
             k = leave[0] % (len(msgs) + 1)
-            p, mutated = build_bye(leave[1], leave[2])
+            p, bcls = build_bye(leave[1], leave[2])
             msgs.insert(k, (50 if accept_first and k else 5, p))
-            cls = ["bye:auth:%s:after-%d-messages" % (method, k)] + ["bye:mutated"] * mutated
+            cls = ["bye:auth:%s:after-%d-messages" % (method, k)] + bcls
         run_authc(ctx, method, msgs, early=[ext_info_payload(*e) for e in early], service_transport=service_tr, classes=cls)
 
     def body_authk(c):
@@ -1306,7 +1368,7 @@ def run(ctx):
         if method == "password-fallback":
             cls.append("authc:password-fallback:failure-list=" + KBD_FAILURE_LISTS[flist % len(KBD_FAILURE_LISTS)].decode())
         if final == "disconnect":
-            cls += ["bye:auth:kbd-exchange:%s" % method] + ["bye:mutated"] * build_bye(leave[1], leave[2])[1]
+            cls += ["bye:auth:kbd-exchange:%s" % method] + build_bye(leave[1], leave[2])[1]
         run_authc(ctx, method, build_kbd_script(method, rounds, final, flist, service_tr, bye=leave[1:]), service_transport=service_tr, classes=cls)
 
     def body_auths(c):
@@ -1326,12 +1388,12 @@ def run(ctx):
     strategies = {
         "pre": pre_case(),
         # 0-3 application calls of the tested side (either role) wait meanwhile; one script in three ends with the peer's DISCONNECT
-        "post": st.tuples(st.sampled_from(["client", "server"]), _msgs_from(post_c, 3), waiters, st.one_of(*_none(2), bye)),
+        "post": st.tuples(st.sampled_from(["client", "server"]), _msgs_from(post_c, 4), waiters, st.one_of(*_none(2), bye)),
         # channel-centred: only messages for the open channel, mutations that prefer the text fields, and (client) an application
         # call blocked on that channel most of the time
         "postc": st.tuples(
             st.sampled_from(["client", "server"]),
-            st.lists(st.tuples(st.integers(0, len(chan_t) - 1), text_muts), min_size=1, max_size=3),
+            st.lists(st.tuples(st.integers(0, len(chan_t) - 1), chan_muts), min_size=1, max_size=5),
             waiters,
             st.one_of(*_none(2), bye),
         ),
@@ -1393,15 +1455,49 @@ def run(ctx):
                         script.append(frame(mutate(20, kexinit_fields(KEXES[0], sorted(HOSTKEYS)[0]), [])))
                     script.append(frame(peers.m_disconnect(11, b"bye")))
                     run_pre(ctx, role, script, blocking)
-    # families are interleaved (one draw picks the family) so that a budget hit thins all of them evenly
-    weights = {"pre": 6, "post": 3, "postc": 3, "authc": 3, "authk": 2, "auths": 5, "wire": 2}
+    # enumerated sub-domains (sharded over the workers): EVERY text field of every message of a stage's grammar, one at a time,
+    # undecodable, while application calls wait - random text mutations meet a given (message, field) pair about twice per quick run
+    fams0 = os.environ.get("C38_FAMILIES", "sweep").split(",")
+    mine = lambda i: i % ctx.nworkers == ctx.worker  # noqa: E731
+    if "sweep" in fams0:
+        import time as _t
+
+        t_sweep = _t.time()
+        # connection stage, both roles; the two roles of a pair get the two waiter sets in turn (the first one includes the re-key stage)
+        SW = [["open_session", "exec_command", REKEY], ["open_session", "open_channel:direct-tcpip", "invoke_subsystem"]]
+        for i, (ti, fi, p) in enumerate(text_field_sweep(post_c, ctx.seed)):
+            if mine(i):
+                for r, role in enumerate(("client", "server")):
+                    ctx.count("sweep:post:%s" % role)
+                    run_post(ctx, role, [p], False, pendings=SW[(i + r) % 2])
+        # authentication stage (tested client): each text field of each message a server sends during authentication, delivered
+        # while the auth call's request is pending; the entry API rotates
+        AM = ["password", "publickey", "interactive", "none", "publickey-rsa"]
+        accept = (5, bytes([6]) + R.string(b"ssh-userauth"))
+        for i, (ti, fi, p) in enumerate(text_field_sweep(authc_t, ctx.seed)):
+            if mine(i):
+                ctx.count("sweep:authc")
+                run_authc(ctx, AM[(i + ctx.seed) % len(AM)], [accept, (50, p)], service_transport=bool((i + ctx.seed) % 2), classes=["sweep:authc:type:%d" % p[0]])
+        # keyboard-interactive conversations: each text field of the INFO_REQUEST x entry API x transport class
+        for i, (ti, fi, p) in enumerate(text_field_sweep([(60, info_request_fields(1))], ctx.seed)):
+            for j, method in enumerate(("interactive", "interactive-dumb", "password-fallback")):
+                for k, svc in enumerate((False, True)):
+                    if mine(i * 6 + j * 2 + k):
+                        ctx.count("sweep:authk:" + method)
+                        script = build_kbd_script(method, [(1, [])], "success", i + k + ctx.seed, svc)
+                        script = [(a, p if q[:1] == b"\x3c" else q) for a, q in script]
+                        run_authc(ctx, method, script, service_transport=svc, classes=["sweep:authk:field-%d" % fi])
+        ctx.note("text_field_sweep_seconds", round(_t.time() - t_sweep, 1))
+    # every family gets a FIXED share of the cases (a single one_of over all families left the shares to hypothesis: 4 to 50 wire
+    # cases, 30 to 150 authk cases depending on the seed); the shares are run in 3 interleaved rounds, each round and family with a
+    # seed stream of its own, so that a budget hit thins all of them about evenly
+    weights = {"pre": 4, "post": 2, "postc": 3, "authc": 3, "authk:interactive": 1, "authk:interactive-dumb": 1, "authk:password-fallback": 1, "auths": 4, "wire": 2}
+    for f in [f for f in weights if ":" in f]:
+        # the three ways into a keyboard-interactive conversation get a fixed share each
+        fam, method = f.split(":")
+        bodies[f] = bodies[fam]
+        strategies[f] = st.tuples(st.just(method), strategies[fam]).map(lambda mc: (mc[0],) + tuple(mc[1][1:]))
     fams = [f for f in os.environ.get("C38_FAMILIES", "pre,post,postc,authc,authk,auths,wire,reply").split(",") if f in bodies]  # diagnostics only
-    tagged = []
-    for f in fams:
-        if f not in weights:
-            continue
-        # distinct strategy objects: hypothesis' one_of de-duplicates identical ones, so repetition by `* n` would not weight
-        tagged += [strategies[f].map(lambda c, f=f: (f, c)) for _ in range(weights[f])]
     import time as _time
 
     spent = {}
@@ -1419,11 +1515,16 @@ def run(ctx):
                 print("SLOW %.1fs %s %r" % (d, fc[0], fc[1]))
 
     # the answer-centred family runs on its own (own seed stream, first: a budget hit later on cannot starve it); its cases are paid
-    # for by the interleaved families (760 -> 680 quick cases)
+    # for by the other families (760 -> 680 -> 620 quick cases, reply 90 -> 80: the several-waiters sessions of post / postc cost more)
     if "reply" in fams:
-        ctx.explore(strategies["reply"].map(lambda c: ("reply", c)), timed, ctx.scale(80, 1100), shrink=False, seed_offset=2)
-    if tagged:
-        ctx.explore(st.one_of(*tagged), timed, ctx.scale(600, 8100), shrink=False, seed_offset=1)
+        ctx.explore(strategies["reply"].map(lambda c: ("reply", c)), timed, ctx.scale(70, 1100), shrink=False, seed_offset=2)
+    total, wsum, rounds = ctx.scale(540, 8100), sum(weights.values()), 3
+    for r in range(rounds):
+        for i, f in enumerate(sorted(weights)):
+            n = total * weights[f] // wsum
+            k = n // rounds + (1 if r < n % rounds else 0)
+            if f.split(":")[0] in fams and k:
+                ctx.explore(strategies[f].map(lambda c, f=f: (f.split(":")[0], c)), timed, k, shrink=False, seed_offset=10 + 16 * r + i)
     ctx.note("family_cases_and_seconds", {k: [v[0], round(v[1], 1)] for k, v in sorted(spent.items())})
 
 
